@@ -35,6 +35,11 @@ BrokenZst(r) ==
   \* r6: the cache returns its shared pointer exactly for zero-sized types whose alignment fits
   (IF o.cached = e.cached /\ o.cached_again = e.cached /\ o.shared = e.cached /\ o.is_cache_ptr = e.cached
       /\ o.aligned /\ o.cache_ptr_aligned THEN {} ELSE {"r6"})
+  \* r7: ptr_eq speaks about the ALLOCATION: two pointers of one static type to the same allocation are
+  \*     ptr_eq whatever their metadata (here: two different zero-sized types of one cache, unsized to the
+  \*     same trait-object type, carry different vtables), and pointers to different allocations are not
+  \cup (IF o.dyn_ptr_eq = o.dyn_same_alloc /\ o.dyn_weak_ptr_eq = o.dyn_same_alloc /\ o.dyn_same_alloc = e.cached
+        THEN {} ELSE {"r7"})
 
 TInit == i = 1 /\ viol = {} /\ seenChains = {} /\ seenZst = {}
 TNext ==
